@@ -44,9 +44,9 @@ func init() {
 		ID:    "C20",
 		Level: "exploration",
 		Rule: "case = interleaved history of Add, queries and Merge on dataset.Dataset (duplicates, negatives, unsorted arrival, additions after queries, merges of two datasets), reference = the harness's own sorted copy; Lower/UpperQuantile must equal the order statistic at floor/ceil of q(n-1) " +
-			"(rank accepted both as the float product and as the exact product), Quantile == lower, NaN when empty or q outside [0,1], Min/Max/Count exact, Sum within the compensated-sum bound, Merge == adding all values. Non-trivial = history with an addition after a query and a merge; distinct = hash of the history.",
+			"(rank accepted both as the float product and as the exact product), Quantile == lower, NaN when empty or q outside [0,1], Min/Max/Count exact, Sum within the compensated-sum bound, Merge == adding all values; besides whole checkpoints (all queries in a fixed order) the history holds single queries (one of Sum/Count/Lower/Upper/Quantile/Min/Max, q drawn from a few values reused during the case) answered on their own right after additions, and a quarter of the cases draw every value from 2-4 distinct values. Non-trivial = history with an addition after a query and a merge; distinct = hash of the history.",
 		Cases:       core.Scale(120000, 3000000),
-		Mandatory:   []string{"oracle.quantile_checks", "event.add_after_query", "event.merge", "oracle.nan_checks", "oracle.sum_checks", "oracle.minmax_before_quantile_queries", "sign_mode.all_negative", "adversarial_sum_cases"},
+		Mandatory:   []string{"oracle.quantile_checks", "event.add_after_query", "event.merge", "oracle.nan_checks", "oracle.sum_checks", "oracle.minmax_before_quantile_queries", "sign_mode.all_negative", "adversarial_sum_cases", "oracle.single_query_checks", "small_pool_cases"},
 		Assumptions: []string{"q = NaN is outside the stated domain and not sent"},
 		Run:         runC20,
 	})
@@ -576,8 +576,19 @@ func runC20(c *core.Ctx) {
 			return []float64{0, math.Copysign(0, -1), 1e300, -1e300, 5e-324, 1, -1}[r.Intn(7)]
 		}
 	}
+	// a small pool of values: many duplicates, first and last stored value often equal
+	var smallPool []float64
+	if !adversarial && r.P(0.25) {
+		for i, k := 0, r.Range(2, 4); i < k; i++ {
+			smallPool = append(smallPool, float64(r.Range(-9, 9))/2)
+		}
+		c.Count("small_pool_cases", 1)
+	}
 	drawValue := func() float64 {
 		v := drawValue0()
+		if smallPool != nil {
+			v = smallPool[r.Intn(len(smallPool))]
+		}
 		switch signMode {
 		case 1:
 			if v == 0 {
@@ -672,11 +683,93 @@ func runC20(c *core.Ctx) {
 		}
 		queried = true
 	}
+	// single queries in any order between additions: each one is answered against the reference on its own,
+	// so no earlier query of the same checkpoint has put the dataset into a convenient state
+	favQ := []float64{0, 1, 0.5, r.Float(), r.Float()}
+	single := func(d *ds, name string) {
+		sorted := append([]float64{}, d.ref...)
+		sort.Float64s(sorted)
+		n := len(sorted)
+		q := favQ[r.Intn(len(favQ))]
+		if n > 1 && r.P(0.3) {
+			q = float64(r.Intn(n)) / float64(n-1)
+		}
+		kind := r.Intn(7)
+		if n == 0 && kind >= 5 {
+			kind = r.Intn(5)
+		}
+		var got float64
+		what := []string{"Sum", "Count", "LowerQuantile", "UpperQuantile", "Quantile", "Min", "Max"}[kind]
+		if c.Guard(what, func() {
+			switch kind {
+			case 0:
+				got = d.d.Sum()
+			case 1:
+				got = d.d.Count
+			case 2:
+				got = d.d.LowerQuantile(q)
+			case 3:
+				got = d.d.UpperQuantile(q)
+			case 4:
+				got = d.d.Quantile(q)
+			case 5:
+				got = d.d.Min()
+			default:
+				got = d.d.Max()
+			}
+		}) {
+			return
+		}
+		c.Logf("%s.%s (q=%v) = %v", name, what, q, got)
+		c.Count("oracle.single_query_checks", 1)
+		c.Count("single."+what, 1)
+		switch kind {
+		case 0:
+			exact, absSum := bigSum(d.ref)
+			bound := 16*0x1p-53*absSum + 64*float64(n+1)*5e-324
+			if !(math.Abs(got-exact) <= bound) {
+				c.Failf("sum", "%s: Sum()=%v asked on its own, exact %v, |diff| %g > bound %g", name, got, exact, math.Abs(got-exact), bound)
+			}
+		case 1:
+			if got != float64(n) {
+				c.Failf("count", "%s.Count=%v after %d additions", name, got, n)
+			}
+		case 2, 3, 4:
+			if n == 0 {
+				if !math.IsNaN(got) {
+					c.Failf("nan", "%s: %s(%v) on an empty dataset = %v, want NaN", name, what, q, got)
+				}
+				break
+			}
+			fr := q * float64(n-1)
+			efl, ece := exactRank(q, int64(n-1))
+			a, b := sorted[int(math.Floor(fr))], sorted[efl]
+			if kind == 3 {
+				a, b = sorted[int(math.Ceil(fr))], sorted[ece]
+			}
+			if !feqNaN(got, a) && !feqNaN(got, b) {
+				c.Failf(map[int]string{2: "lower", 3: "upper", 4: "quantile"}[kind], "%s: %s(%v)=%v asked on its own, want %v (n=%d)", name, what, q, got, b, n)
+			}
+		case 5:
+			if got != sorted[0] {
+				c.Failf("minmax", "%s: Min()=%v asked on its own, want %v", name, got, sorted[0])
+			}
+		default:
+			if got != sorted[n-1] {
+				c.Failf("minmax", "%s: Max()=%v asked on its own, want %v", name, got, sorted[n-1])
+			}
+		}
+		queried = true
+	}
 	n := r.Range(1, 80)
 	if adversarial {
 		n = r.Range(300, 1500)
 	}
 	for i := 0; i < n && !c.Failed(); i++ {
+		if !adversarial && r.P(0.35) {
+			single(main, "d")
+			continue
+		}
 		switch r.Pick(10, 4, 2, 1) {
 		case 0:
 			v := drawValue()
